@@ -1,6 +1,6 @@
-\* thorough: legal feeds only, any skipping policy, all three kinds, window of 6, deeper
-CONSTANT W = 6
-CONSTANT MaxSteps = 8
+\* thorough: legal feeds only, any skipping policy, all three kinds, window of 5, deeper
+CONSTANT W = 5
+CONSTANT MaxSteps = 7
 CONSTANT MaxNums = {0}
 CONSTANT Olds = {FALSE}
 CONSTANT Kinds <- KAll
